@@ -406,7 +406,8 @@ func (w *World) localByName(env *CEnv, name string) *Val {
 			}
 			et := deref(a.Type())
 			if !a.Heap {
-				v, live := env.state().cells[cellID{fr.id, a}]
+				// locals are not part of the heap: old(...) does not affect them
+				v, live := env.cur.cells[cellID{fr.id, a}]
 				if !live {
 					unsupported("local %s is not live where the contract mentions it", name)
 				}
@@ -717,6 +718,20 @@ func (w *World) evalCall(env *CEnv, e *CExpr) *Val {
 			ref = ival(x.T)
 		}
 		return &Val{T: lt(w.hget(env.old, allocKey), ref), Typ: boolT}
+	case "sinceEntry":
+		// sinceEntry(x): x was allocated after the function under contract was entered
+		x := ev(0)
+		ref := x.T
+		if x.T.Sort == SSlice {
+			ref = sarr(x.T)
+		}
+		if x.T.Sort == SIface {
+			ref = ival(x.T)
+		}
+		if w.topEntry == nil {
+			unsupported("sinceEntry() outside a function body")
+		}
+		return &Val{T: lt(w.hget(w.topEntry, allocKey), ref), Typ: boolT}
 	case "allocated":
 		x := ev(0)
 		ref := x.T
